@@ -71,6 +71,9 @@ def compliant_role(prog):
         if b.raw.get('impl_self') != OPW or b.arg_count != 2:
             continue
         rv = b.return_values()
+        if len(rv) == 1 and _is_map_or_compliant(prog, b, strip(rv[0][0])):
+            out.append(b)
+            continue
         if len(rv) != 2:
             continue
         kinds = set()
@@ -85,6 +88,34 @@ def compliant_role(prog):
         if kinds == {'some', 'none'}:
             out.append(b)
     return out
+
+
+def _is_map_or_compliant(prog, b, t):
+    """t == self.constraints.as_ref().map_or(true, |c| c.compliant(&joints))"""
+    if not (isinstance(t, tuple) and t[0] == 'call' and cname(t[1]) == 'Option::map_or' and len(t) == 5):
+        return False
+    recv = strip(t[2])
+    while isinstance(recv, tuple) and recv[0] == 'call' and cname(recv[1]) in ('Option::as_ref', 'Option::as_deref'):
+        recv = strip(recv[2])
+    if not (isinstance(recv, tuple) and recv[0] == 'fld' and recv[2] == 'constraints' and util.is_param(recv[1], 1)):
+        return False
+    if util.const_val(t[3]) not in (1, True):
+        return False
+    cl = strip(t[4])
+    if not (isinstance(cl, tuple) and cl[0] == 'agg' and str(cl[1]).startswith('closure:')):
+        return False
+    cb = prog.bodies.get(cl[1][len('closure:'):])
+    caps = [strip(x) for x in cl[2:]]
+    if cb is None or len(caps) != 1 or not util.is_param(caps[0], 2):
+        return False
+    rv = cb.return_values()
+    if len(rv) != 1:
+        return False
+    r = strip(rv[0][0])
+    if not (isinstance(r, tuple) and r[0] == 'call' and cname(r[1]) == 'Constraints::compliant' and util.is_param(r[2], 2)):
+        return False
+    a = strip(r[3])
+    return isinstance(a, tuple) and a[0] == 'fld' and util.is_param(strip(a[1]), 1)
 
 
 def intern_solvers(prog):
